@@ -616,6 +616,14 @@ def rule_R4(ctx, repo, flow, sk_classes):
     for st_, cond_ in pcg.raise_sites:
         exc = st_.exc
         nm = dotted(exc.func) if isinstance(exc, ast.Call) else dotted(exc)
+        if nm is not None and isinstance(exc, ast.Call):
+            # an exception built by a factory helper: `raise _not_fitted_error(name)` where the helper returns NotFittedError(...)
+            sym_ = repo.resolve_dotted(base.module, nm)
+            if sym_ is not None and sym_.kind == "func":
+                rr = astq.returns(sym_.target)
+                names_ = {dotted(r.value.func) if isinstance(r.value, ast.Call) else None for r in rr}
+                if len(names_) == 1 and None not in names_:
+                    nm = names_.pop()
         if nm is not None and nm.split(".")[-1] == "NotFittedError":
             nf_cond = _disj(nf_cond, cond_)
         else:
@@ -750,7 +758,11 @@ def rule_R5(ctx, repo, flow):
         b = astq.bind_call(meta.methods[repl_name], rc, skip_self=True)
         third = astq.param_names(meta.methods[repl_name], skip_self=True)[2] if len(astq.param_names(meta.methods[repl_name], skip_self=True)) >= 3 else None
         first = astq.param_names(meta.methods[repl_name], skip_self=True)[0] if astq.param_names(meta.methods[repl_name], skip_self=True) else None
-        pop_ok = b is not None and third is not None and isinstance(b.get(third), ast.Call) and astq.call_name(b[third]) == "pop" \
+        third_v = b.get(third) if b is not None and third is not None else None
+        if isinstance(third_v, ast.Name):
+            _vals = astq.assigned_values(sp, third_v.id)
+            third_v = _vals[0] if len(_vals) == 1 else third_v
+        pop_ok = b is not None and third is not None and isinstance(third_v, ast.Call) and astq.call_name(third_v) == "pop" \
             and dotted(b.get(first)) == "attr"
         ctx.check(sep_ok and pop_ok, "R5", "_set_params:replacement", "components are replaced only for names without `__` that are component names, value popped",
                   "component replacement is not restricted to component names without `__` (condition: %s) / does not consume the entry" % (
@@ -875,36 +887,36 @@ def rule_R5(ctx, repo, flow):
 def _meta_exact(ctx, repo, meta, mod, gp, sp):
     """Exact clauses on the nested get/set helpers, read off path conditions and dataflow."""
     from ..boolx import Atomizer as At, PathConditions as PC, equivalent as eqv, atom as A, neg as N, show as sh
-    # _get_params: the shallow dict is returned exactly when `deep` is off; the expanded one when it is on
-    g = CFG(gp)
-    upd = [n for n in g.nodes if any(astq.call_name(c) == "update" and dotted(c.func.value) == "out" for c in n.calls())
-           or (isinstance(n.stmt, ast.Assign) and any(isinstance(t, ast.Subscript) and dotted(t.value) == "out" for t in n.stmt.targets))]
-    pc = PC(gp, At())
+    # _get_params: the component expansion runs exactly when `deep` is on, and the same dict is returned on every path
+    def _expands(st):
+        return not isinstance(st, (ast.If, ast.For, ast.While, ast.With, ast.Try)) and (
+            any(astq.call_name(c) == "update" and isinstance(c.func, ast.Attribute) and dotted(c.func.value) == "out" for c in astq.calls(st))
+            or (isinstance(st, ast.Assign) and any(isinstance(t, ast.Subscript) and dotted(t.value) == "out" for t in st.targets)))
+    pc = PC(gp, At(), mark=_expands)
     loc = ctx.loc(mod, gp)
-    if not upd or not pc.return_sites:
+    if not pc.marked or not pc.return_sites:
         ctx.undecided("R5", "_get_params:deep-switch", "no expansion of / return from the parameter dict found", loc)
     else:
-        IN, OUT = g.forward_must(lambda n: n in upd)
+        from ..boolx import evaluate as _evl, atoms_of as _ato, disj as _dj0
+        from itertools import product as _prod
         bad = None
-        for st, cond in pc.return_sites:
-            node = g.node_of(st)
-            if node is None or dotted(st.value) != "out":
+        for st, _c in pc.return_sites:
+            if dotted(st.value) != "out":
                 bad = "returns `%s`, not the parameter dict" % (ast.unparse(st.value) if st.value is not None else None)
-                break
-            want = A("deep") if IN[node.id] else N(A("deep"))
-            # conditions of the loops in between are irrelevant: compare on `deep` only
-            ats = sorted(__import__("sa.boolx", fromlist=["atoms_of"]).atoms_of(cond))
-            if "deep" not in ats:
-                bad = "the return at line %d does not depend on `deep` (condition %s)" % (st.lineno, sh(cond))
-                break
-            from ..boolx import evaluate as _evl
-            from itertools import product as _prod
+        upd = [c for st, c in pc.marked if any(astq.call_name(x) == "update" for x in astq.calls(st))]
+        cond = ("const", False)
+        for c in upd:
+            cond = _dj0(cond, c)
+        ats = sorted(_ato(cond))
+        if bad is None and "deep" not in ats:
+            bad = "the component expansion does not depend on `deep` (runs under %s)" % sh(cond)
+        if bad is None:
             others = [a for a in ats if a != "deep"]
-            sat = {d for d in (False, True) for vals in _prod((False, True), repeat=len(others)) if _evl(cond, dict(zip(others, vals), deep=d))}
-            exp = {True} if IN[node.id] else {False}
-            if sat != exp:
-                bad = "the %s dict is returned when deep is %s (line %d)" % ("expanded" if IN[node.id] else "shallow", sorted(sat), st.lineno)
-                break
+            for d in (False, True):
+                got = {bool(_evl(cond, dict(zip(others, vals), deep=d))) for vals in _prod((False, True), repeat=len(others))}
+                if got != {d}:
+                    bad = "with deep=%s the components are %s" % (d, "expanded" if True in got else "not expanded")
+                    break
         ctx.check(bad is None, "R5", "_get_params:deep-switch", "shallow parameters iff deep is off, component-expanded parameters iff deep is on",
                   "_get_params: %s" % bad, loc, witness={"call": "get_params(deep=True) / get_params(deep=False)"} if bad else None)
     inner = [c for c in astq.calls(gp) if astq.call_name(c) == "get_params" and not (isinstance(c.func.value, ast.Call) and dotted(c.func.value.func) == "super")]
@@ -1076,7 +1088,8 @@ def _format_sep(key):
         if len(fv) == 2 and len(lits) == 1:
             return lits[0]
     if isinstance(key, ast.Call) and astq.call_name(key) == "format" and isinstance(key.func.value, ast.Constant):
-        parts = key.func.value.value.replace("{0}", "{}").replace("{1}", "{}").split("{}")
+        import re as _re
+        parts = _re.sub(r"\{[01]?(![sra])?(:[^{}]*)?\}", "{}", key.func.value.value).split("{}")
         if len(parts) == 3 and parts[0] == "" and parts[2] == "":
             return parts[1]
     if isinstance(key, ast.BinOp) and isinstance(key.op, ast.Add):
@@ -1135,6 +1148,8 @@ def rule_introspection_stateless(ctx, repo, classes):
 
 
 def run(ctx):
+    from ..boolx import bind_repo as _bind_repo
+    _bind_repo(ctx.repo)
     repo = ctx.repo
     flow = Flow(repo)
     ctx.explain("C04: per concrete estimator class (C3 MRO): abstract interpretation of the constructor chain (every argument "
